@@ -436,6 +436,64 @@ func run(r *mon.Run) {
 		sxgSeeds = append(sxgSeeds, buf.Bytes())
 		sxgDates = append(sxgDates, spec.Date.Add(time.Minute))
 	}
+	// validly signed exchanges whose header VALUES are hostile: the signature, the integrity check and every earlier
+	// step pass, so the code that interprets Cache-Control / Expires / Content-Type / Vary ... sees the values
+	{
+		pieces := []string{"\"", "\"\"", ",", "=", ";", " ", "\t", "max-age", "s-maxage", "no-store", "private", "public", "no-cache", "0", "1", "99999999999999999999", "-1", "\\", "ext", "Thu, 01 Dec 2094 16:00:00 GMT", "(", "%", "\x7f", "\u00e9"}
+		nHostile := 400
+		if r.Thorough {
+			nHostile = 12000
+		}
+		for k := 0; k < nHostile; k++ {
+			if !mine() {
+				continue
+			}
+			g := r.Rand("hostile-values", k)
+			ver := gen.SXGVersions[k%3]
+			spec := gen.DefaultSXG(g, ver, idA, "example.com", 20, 16)
+			mkv := func() string {
+				v := ""
+				for n := g.Intn(7); n > 0; n-- {
+					v += mon.Pick(g, pieces)
+				}
+				return v
+			}
+			// the systematic part: every directive with every short argument shape
+			if k < 120 {
+				dir := []string{"max-age", "s-maxage", "no-store", "private", "public", "ext"}[k%6]
+				arg := []string{"", "=", "=\"", "=\"\"", "=\"1", "=1\"", "=\",\"", "=\"\\", "= ", "=\t1", "=1,", ",", "=,", "=\"\"\"", "=-", "=1=2", "=\"a,b\"", "= \"", "=\x7f", "=0"}[(k/6)%20]
+				spec.RespHeaders = http.Header{"Content-Type": {"text/html"}, "Cache-Control": {dir + arg}}
+			} else {
+				spec.RespHeaders = http.Header{"Content-Type": {mkv()}}
+				for _, name := range []string{"Cache-Control", "Expires", "Vary", "Link", "Age", "Date", "Pragma", "Warning", "Variants", "Variant-Key"} {
+					if g.Chance(1, 2) {
+						spec.RespHeaders[name] = []string{mkv()}
+						if g.Chance(1, 3) {
+							spec.RespHeaders[name] = append(spec.RespHeaders[name], mkv())
+						}
+					}
+				}
+			}
+			if k%3 != 2 && g.Bool() { // (1b3 carries no request headers)
+				spec.ReqHeaders = http.Header{"Accept": {mkv()}, "Cache-Control": {mkv()}}
+			}
+			e, _, err := spec.Build()
+			if err != nil {
+				r.Count("note:hostile-value-exchange-not-signable")
+				continue
+			}
+			var buf bytes.Buffer
+			if err := e.Write(&buf); err != nil {
+				continue
+			}
+			file := buf.Bytes()
+			guard(r, "ReadExchange+Verify(validly signed, hostile header values)", fmt.Sprintf("values/%s", ver), file, len(file)+len(idA.CBOR), func() {
+				if back, err := signedexchange.ReadExchange(bytes.NewReader(file)); err == nil {
+					back.Verify(spec.Date.Add(time.Minute), idA.Fetcher(), quietLog)
+				}
+			})
+		}
+	}
 	for i, s := range sxgSeeds {
 		date := sxgDates[i]
 		_, _, sigH, hdr, _, _ := rsxg.ParseFile(s)
